@@ -1,6 +1,7 @@
 package lib
 
 import (
+	"context"
 	"bytes"
 	"fmt"
 	"io"
@@ -109,6 +110,11 @@ func (t *trackReader) Read(p []byte) (int, error) { return t.r.Read(p) }
 // RunPipe feeds the whole pre-written input to Server.Serve over in-memory
 // reader/writer and decodes everything the server wrote.
 func RunPipe(srv *vgirpc.Server, input []byte) (res PipeResult) {
+	return RunPipeCtx(nil, srv, input)
+}
+
+// RunPipeCtx is RunPipe under a caller-supplied base context (nil = Serve's own).
+func RunPipeCtx(ctx context.Context, srv *vgirpc.Server, input []byte) (res PipeResult) {
 	rd := &trackReader{r: bytes.NewReader(input)}
 	var out bytes.Buffer
 	func() {
@@ -117,7 +123,11 @@ func RunPipe(srv *vgirpc.Server, input []byte) (res PipeResult) {
 				res.Panic = fmt.Sprint(rv)
 			}
 		}()
-		srv.Serve(rd, &out)
+		if ctx != nil {
+			srv.ServeWithContext(ctx, rd, &out)
+		} else {
+			srv.Serve(rd, &out)
+		}
 	}()
 	res.Unread = rd.r.Len()
 	res.Out = out.Bytes()
